@@ -29,7 +29,7 @@ ASSUMPTIONS = [
 SANITY = ["runs_with_loss_tridonic", "runs_with_loss_hasseb", "runs_with_return_tridonic", "runs_with_return_hasseb",
           "runs_with_cancel_tridonic", "runs_with_cancel_hasseb", "tail_sends", "runs_reporting_failed",
           "sends_failed_with_CommunicationError", "serial_confirm_timeouts", "serial_silent_answers", "serial_gateway_died_mid_report"]
-BOUNDS = {"quick": "loss + <=1 further deviation; cancel + 0 further deviations + 300-send tail", "thorough": "loss + <=2 further deviations (2 callers), double loss; cancel + <=1 further deviation"}
+BOUNDS = {"quick": "loss + <=1 further deviation; cancel + 0 further deviations + 300-send tail; serial: silence at confirmation / answer d<=1, gateway dies after 1..4 (6) bytes of its n-th report (n<=3), default schedule", "thorough": "loss + <=2 further deviations (2 callers), double loss; cancel + <=1 further deviation"}
 
 
 class SeqResult:
